@@ -76,6 +76,21 @@ def call(
     if extra_args:
         raise TypeError(f"unexpected keyword argument '{extra_args[0]}'")
 
+    # Narrow integer types would wrap around when raised to a power:
+    for name, value in parameters.items():
+        if isinstance(value, (list, tuple)):
+            value = numpoly.polynomial(value)
+            parameters[name] = value = (
+                value.tonumpy() if value.isconstant() else value
+            )
+        if (
+            isinstance(value, (numpy.generic, numpy.ndarray))
+            and not isinstance(value, numpoly.ndpoly)
+            and value.dtype.kind in "bui"
+            and value.dtype.itemsize < numpy.dtype(int).itemsize
+        ):
+            parameters[name] = value.astype(int)
+
     # There can only be one shape:
     ones = numpy.ones((), dtype=int)
     for value in parameters.values():
@@ -90,7 +105,7 @@ def call(
     for exponent, coefficient in zip(poly.exponents, poly.coefficients):
         term = ones
         for power, name in zip(exponent, poly.names):
-            term = term * parameters[name] ** power
+            term = term * parameters[name] ** int(power)
         if isinstance(term, numpoly.ndpoly):
             tmp = numpoly.outer(coefficient, term)
         else:
